@@ -139,6 +139,10 @@ pub fn times() -> Vec<Vec<TimeSpan>> {
         vec![span_open_end(tfix(18, 0), tfix(24, 30))],
         // repetition steps, in minutes and in hours:minutes
         vec![span_rep(tfix(10, 0), tfix(12, 0), 30), span_rep(tfix(14, 0), tfix(20, 0), 90)],
+        // spans starting at midnight and ending after it: the whole next day (`00:00-48:00`), a part of it
+        // (the full-day shortcut must tell `00:00-24:00` from these)
+        vec![span(tfix(0, 0), tfix(48, 0))],
+        vec![span(tfix(0, 0), tfix(26, 0))],
     ]
 }
 
